@@ -885,11 +885,13 @@ mod os {
             }
             posix::reset_sigpipe()?;
 
-            if let Some(uid) = setuid {
-                posix::setuid(uid)?;
-            }
+            // The group must be changed first: once the user id is dropped
+            // the process may no longer be allowed to call setgid().
             if let Some(gid) = setgid {
                 posix::setgid(gid)?;
+            }
+            if let Some(uid) = setuid {
+                posix::setuid(uid)?;
             }
             if setpgid {
                 posix::setpgid(0, 0)?;
